@@ -8761,7 +8761,7 @@ def gen_slpp_write_src():
 # (z) fn read_arrow_frames: the magic bytes, the prologue, what happens on each item of the Arrow stream and after the loop
 #     -> Gen/SlppReadSrc.v   (names / break / targets of the arms: front end (d); the helper arms: (n))
 
-SY_ERR = r'err ! \( .* \)'
+SY_ERR = r'err ! \( (?:[^()]|\( (?:[^()]|\( [^()]* \))* \))* \)'      # the macro's own parentheses (balanced, up to two levels inside): nothing may follow inside the enclosing call
 
 
 def sy_frames_arm(name, bd, accs, where):
